@@ -70,9 +70,17 @@ type Item struct {
 	Opts     map[string]string
 	Triggers [][]*SExpr
 	Emits    []*Emit
+	GhostAt  []*GhostAt
 }
 
 // Emit: a call of the function appends a record to a ghost trace channel.
+// GhostAt is a ghost emission attached to instructions of the function under verification.
+type GhostAt struct {
+	Kind string // send | mapupdate | call
+	Arg  string
+	Emit *Emit
+}
+
 type Emit struct {
 	Ch   string
 	Args []*SExpr
@@ -303,6 +311,32 @@ func parseContractFile(path, pkgPath string) ([]*Item, error) {
 			}
 			cur.UseAt = append(cur.UseAt, &UseAt{Where: strings.Join(strings.Fields(rest[:k]), " "), Name: x.Name, Args: x.Args})
 		case "ghost":
+			if strings.HasPrefix(rest, "at ") {
+				// ghost at <anchor> :: emit ch(args): ghost instrumentation of the function under
+				// verification. Anchors: `send` (channel send; op0 = channel, op1 = value),
+				// `mapupdate <field>` (m[k] = v on the map held in that field; op0 = key, op1 = value),
+				// `call <name>` (call of a function or method with that name; op0.. = arguments,
+				// receiver first)
+				k := strings.Index(rest, "::")
+				if k < 0 {
+					return nil, fail(fmt.Errorf("ghost at needs <anchor> :: emit ch(args)"))
+				}
+				anchor := strings.Fields(rest[3:k])
+				body := strings.TrimSpace(rest[k+2:])
+				if !strings.HasPrefix(body, "emit ") || len(anchor) == 0 {
+					return nil, fail(fmt.Errorf("ghost at needs <anchor> :: emit ch(args)"))
+				}
+				x, err := parseSpecExpr(strings.TrimSpace(body[5:]))
+				if err != nil || x.Op != "call" {
+					return nil, fail(fmt.Errorf("ghost at: emit needs channel(args): %v", err))
+				}
+				g := &GhostAt{Kind: anchor[0], Emit: &Emit{Ch: x.Name, Args: x.Args}}
+				if len(anchor) > 1 {
+					g.Arg = anchor[1]
+				}
+				cur.GhostAt = append(cur.GhostAt, g)
+				break
+			}
 			// ghost ensures e : assumed at call sites, not checked in the callee. Only for facts
 			// that merely NAME an outcome through an otherwise unconstrained spec predicate.
 			r := strings.TrimSpace(strings.TrimPrefix(rest, "ensures"))
